@@ -166,6 +166,9 @@ def _try(an, st, cur, out):
     # state at handler entry: any intermediate state of the body
     if getattr(an, 'handler_from_entry', False):
         hstate = cur      # documented assumption of the analysis: exceptions precede the tracked effects
+    elif len(st.body) == 1 and isinstance(st.body[0], (ast.Assign, ast.AugAssign, ast.Expr)):
+        # a single simple statement: when it raises, its own effect (a key popped, a value bound) has not taken place
+        hstate = cur
     else:
         hstate = _joinall(an, [cur] + rec.seen + [s for _, s in body.raises])
     fall_states = []
